@@ -27,7 +27,7 @@ CLAIM = {
     "note": "Modelled, not verified: the Pos/End bodies as an interpreted table (translator/gen_astpos.go; File.End by "
             "hand, hash-checked); tied by comparing Pos()/End() of every node with the extracted interpreter. Templates "
             "are hand-written from the grammar comments (Model/C17.v). Theorem gaps stated in Props/C17.v: File, parser "
-            "position recording, re-parse. Known findings (known_findings.d/C17.txt): c\"...\"/py\"...\" literals, "
+            "position recording, re-parse. Known findings (known_findings.txt): c\"...\"/py\"...\" literals, "
             "matrix literal re-parse, command-style "
             "call end, indexed slice literal. Excluded by the Reading: synthesised entry of script files and package "
             "name, nodes inside ${} / domain-text arguments, non-existent FieldLists, implicit semicolons, comments, "
